@@ -12,7 +12,14 @@ The normaliser maps such variants back towards the vocabulary of the tree the ru
       expression whose inputs are not modified between the definition and the uses, are substituted into
       their uses; `bool(x)` wrappers around conditions are dropped.
 
-All three are semantics-preserving rewrites of the analysed copy of the AST; /repo is never modified.  The
+  N0  parallel assignments `a, b = x, y` whose right-hand sides do not read the earlier targets are split into single ones;
+  N4  `while True:` loops that start with `if c: break` become `while not c:`;
+  N5  counter loops `i = a; while i < b: ...; i += 1` (bound not modified by the body, `i` not read after the loop,
+      no `continue`) become `for i in range(a, b)`;
+  helper inlining (N1) also handles helpers with guard-clause returns outside loops (return elimination) and renames an
+  inlined result temporary to the variable it is copied to.
+
+All of these are semantics-preserving rewrites of the analysed copy of the AST; /repo is never modified.  The
 baseline vocabulary (`baseline_vocab.json`: class -> method names, function -> local names) only decides what
 counts as "new"; it is not a reference the code is compared against.
 """
@@ -94,22 +101,93 @@ def simple_arg(e):
     return False
 
 
+RET = "__retval__"
+
+
+def _has_return(s):
+    return any(isinstance(n, ast.Return) for n in ast.walk(s))
+
+
+def eliminate_returns(stmts):
+    """Rewrite a statement list whose returns are all outside loops/try/with into one without `return`: the value goes to
+    the local RET and the statements after a returning branch move into the other branch.
+    Returns (new statements, always_returns) or None when a return sits inside a loop / try / with / nested function."""
+    out = []
+    for i, s in enumerate(stmts):
+        if isinstance(s, ast.Return):
+            out.append(ast.Assign(targets=[ast.Name(id=RET, ctx=ast.Store())], value=s.value if s.value is not None else ast.Constant(value=None)))
+            return out, True
+        if isinstance(s, ast.If) and _has_return(s):
+            a = eliminate_returns(s.body)
+            b = eliminate_returns(s.orelse)
+            if a is None or b is None:
+                return None
+            (body, ra), (orelse, rb) = a, b
+            rest = stmts[i + 1:]
+            if ra and rb:
+                out.append(ast.If(test=s.test, body=body, orelse=orelse))
+                return out, True
+            r = eliminate_returns(rest)
+            if r is None:
+                return None
+            rest2, rr = r
+            if ra:
+                out.append(ast.If(test=s.test, body=body, orelse=orelse + rest2))
+                return out, rr
+            if rb:
+                out.append(ast.If(test=s.test, body=body + rest2, orelse=orelse))
+                return out, rr
+            return None     # a branch returns on some of its paths only: needs a flag, not handled
+        if _has_return(s):
+            return None
+        out.append(s)
+    return out, False
+
+
 def helper_shape(fn):
-    """(body statements without docstring and without trailing return, return expr or None) if inlinable."""
+    """(body statements without docstring and without returns, result expression or None) if inlinable."""
     body = list(fn.body)
     if body and isinstance(body[0], ast.Expr) and isinstance(body[0].value, ast.Constant) and isinstance(body[0].value.value, str):
         body = body[1:]
     if fn.args.vararg or fn.args.kwarg or fn.args.kwonlyargs:
         return None
-    ret = None
-    if body and isinstance(body[-1], ast.Return):
-        ret = body[-1].value
-        body = body[:-1]
     for s in body:
         for n in ast.walk(s):
-            if isinstance(n, (ast.Return, ast.Yield, ast.YieldFrom, ast.FunctionDef, ast.Lambda, ast.Global, ast.Nonlocal)):
+            if isinstance(n, (ast.Yield, ast.YieldFrom, ast.FunctionDef, ast.Lambda, ast.Global, ast.Nonlocal)):
                 return None
-    return body, ret
+    ret = None
+    if body and isinstance(body[-1], ast.Return) and not any(_has_return(x) for x in body[:-1]):
+        return body[:-1], body[-1].value
+    if not any(_has_return(x) for x in body):
+        return body, None
+    r = eliminate_returns(copy.deepcopy(body))
+    if r is None:
+        return None
+    new, always = r
+    if not always:
+        new = [ast.Assign(targets=[ast.Name(id=RET, ctx=ast.Store())], value=ast.Constant(value=None))] + new
+    for x in new:
+        ast.fix_missing_locations(x)
+    return new, ast.Name(id=RET, ctx=ast.Load())
+
+
+def drop_result_stores(stmts, name):
+    """Remove the assignments to the (unused) result variable `name`; empty branches are repaired."""
+    out = []
+    for s in stmts:
+        if isinstance(s, ast.Assign) and len(s.targets) == 1 and isinstance(s.targets[0], ast.Name) and s.targets[0].id == name:
+            continue
+        if isinstance(s, ast.If):
+            s.body = drop_result_stores(s.body, name)
+            s.orelse = drop_result_stores(s.orelse, name)
+            if not s.body and not s.orelse:
+                out.append(ast.copy_location(ast.Expr(value=s.test), s))
+                continue
+            if not s.body:
+                s.test = negate(s.test)
+                s.body, s.orelse = s.orelse, []
+        out.append(s)
+    return out
 
 
 class Inliner:
@@ -213,6 +291,62 @@ class Inliner:
             ast.fix_missing_locations(s)
         return pre + new_body, new_ret
 
+    def hoist_nested(self, s, cls, helpers, fn):
+        """A statement-level-inlinable helper call nested inside a simple statement's expression is evaluated into a
+        temporary first, when nothing that could observe the difference is evaluated before it."""
+        if not isinstance(s, (ast.Expr, ast.Assign, ast.AugAssign, ast.AnnAssign, ast.Return)) or getattr(s, "value", None) is None:
+            return None
+        root = s.value
+        h0, _ = self.match_call(root, cls, helpers) if isinstance(root, ast.Call) else (None, False)
+        if h0 is not None:
+            return None
+        par = {}
+        for a in ast.walk(root):
+            for b in ast.iter_child_nodes(a):
+                par[id(b)] = a
+        cands = []
+        for n in ast.walk(root):
+            if isinstance(n, ast.Call):
+                h, is_m = self.match_call(n, cls, helpers)
+                if h is not None and h is not fn:
+                    shape = helper_shape(h)
+                    if shape is not None and (shape[0] or shape[1] is None):
+                        cands.append(n)
+        if len(cands) != 1:
+            return None
+        H = cands[0]
+        anc = set()
+        q = H
+        while id(q) in par:
+            q = par[id(q)]
+            anc.add(id(q))
+            if isinstance(q, (ast.Lambda, ast.ListComp, ast.SetComp, ast.DictComp, ast.GeneratorExp, ast.IfExp)):
+                return None
+            if isinstance(q, ast.BoolOp) and not any(x is H for x in ast.walk(q.values[0])):
+                return None
+        for n in ast.walk(root):
+            if isinstance(n, ast.Call) and n is not H and id(n) not in anc and not any(x is n for x in ast.walk(H)):
+                if not pure_expr(n):
+                    return None
+        if isinstance(s, (ast.Assign, ast.AugAssign, ast.AnnAssign)):
+            tg = s.targets if isinstance(s, ast.Assign) else [s.target]
+            if any(not isinstance(t, ast.Name) for t in tg):
+                return None     # a subscript / attribute target is evaluated around the value: keep the order
+        self.counter += 1
+        name = "__hoist%d" % self.counter
+
+        class Rep(ast.NodeTransformer):
+            def visit_Call(self, n):
+                if n is H:
+                    return ast.copy_location(ast.Name(id=name, ctx=ast.Load()), n)
+                return self.generic_visit(n)
+        s.value = Rep().visit(root)
+        new = ast.Assign(targets=[ast.Name(id=name, ctx=ast.Store())], value=H)
+        ast.copy_location(new, s)
+        ast.fix_missing_locations(new)
+        ast.fix_missing_locations(s)
+        return new
+
     def inline_in(self, fn, cls, helpers):
         changed = [False]
         me = self
@@ -227,6 +361,11 @@ class Inliner:
                         setattr(s, field, in_block(b))
                 call = None
                 kind = None
+                hoisted = me.hoist_nested(s, cls, helpers, fn)
+                if hoisted is not None:
+                    # `__hoistN = helper(..)` now precedes the statement; handle both in order
+                    out.extend(in_block([hoisted]))
+                    changed[0] = True
                 if isinstance(s, ast.Expr) and isinstance(s.value, ast.Call):
                     call, kind = s.value, "expr"
                 elif isinstance(s, (ast.Assign, ast.AugAssign, ast.AnnAssign)) and isinstance(s.value, ast.Call):
@@ -239,6 +378,10 @@ class Inliner:
                         inst = me.instantiate(h, is_m, call)
                         if inst is not None:
                             body, ret = inst
+                            if kind == "expr" and isinstance(ret, ast.Name):
+                                body = drop_result_stores(body, ret.id)
+                                for x in body:
+                                    ast.fix_missing_locations(x)
                             out.extend(body)
                             if kind == "expr":
                                 pass
@@ -377,9 +520,24 @@ def pure_expr(e):
     return True
 
 
+REBOUND = [None]      # attribute names rebound through `self.<attr> = ...` outside __init__ anywhere in the analysed packages
+
+
+def is_const_attr(n):
+    """self.<attr> where <attr> is assigned in constructors only: the attribute always denotes the same object."""
+    return REBOUND[0] is not None and isinstance(n, ast.Attribute) and isinstance(n.value, ast.Name) and n.value.id == "self" and \
+        n.attr not in REBOUND[0]
+
+
 def reads(e):
     out = set()
+    skip = set()
     for n in ast.walk(e):
+        if id(n) in skip:
+            continue
+        if is_const_attr(n):
+            skip.add(id(n.value))
+            continue
         if isinstance(n, ast.Name):
             out.add(n.id)
         elif isinstance(n, ast.Attribute):
@@ -388,8 +546,26 @@ def reads(e):
             except Exception:
                 pass
         elif isinstance(n, ast.Call):
+            name = src(n.func)
+            if (name.startswith(PURE_NS) and not name.startswith(IMPURE_NP)) or (isinstance(n.func, ast.Name) and n.func.id in PURE_CALL_NAMES):
+                continue
             # the result of a getter depends on the object's state: represent by a pseudo-location
             out.add("<state>")
+    return out
+
+
+def collect_rebound(trees):
+    out = set()
+    for tree in trees:
+        for c in ast.walk(tree):
+            if not isinstance(c, ast.ClassDef):
+                continue
+            for f in c.body:
+                if not isinstance(f, ast.FunctionDef) or f.name == "__init__":
+                    continue
+                for n in ast.walk(f):
+                    if isinstance(n, ast.Attribute) and isinstance(n.ctx, (ast.Store, ast.Del)) and isinstance(n.value, ast.Name) and n.value.id == "self":
+                        out.add(n.attr)
     return out
 
 
@@ -464,6 +640,13 @@ def substitute_new_temps(fn, known_locals):
                                 # a write to an input: allowed only in the last using statement when that statement is simple
                                 # and every use is evaluated before the write takes effect: the right-hand side of an
                                 # assignment, or the arguments of the statement's single state-changing call
+                                if t is later[last_use_idx] and isinstance(t, (ast.If, ast.For)):
+                                    # every use inside the condition / the iterable, which is evaluated once, before the body runs
+                                    head = t.test if isinstance(t, ast.If) else t.iter
+                                    inside_head = {id(x) for x in ast.walk(head)}
+                                    uses_t = [x for x in ast.walk(t) if isinstance(x, ast.Name) and x.id == name]
+                                    if uses_t and all(id(x) in inside_head for x in uses_t) and not (writes_of(ast.Expr(value=head)) & deps):
+                                        continue
                                 if t is later[last_use_idx] and isinstance(t, (ast.Assign, ast.AugAssign, ast.Return, ast.Expr)):
                                     impure = [x for x in ast.walk(t) if isinstance(x, ast.Call) and "<state>" in writes_of(ast.Expr(value=x))]
                                     if not impure:
@@ -497,6 +680,310 @@ def substitute_new_temps(fn, known_locals):
             i += 1
     process(fn.body)
     return n_sub[0]
+
+
+def _blocks(fn):
+    """Every statement list of the function (the lists themselves, so they can be edited in place)."""
+    out = []
+    stack = [fn]
+    while stack:
+        n = stack.pop()
+        for field in ("body", "orelse", "finalbody"):
+            b = getattr(n, field, None)
+            if isinstance(b, list) and b and isinstance(b[0], ast.stmt):
+                out.append(b)
+                for x in b:
+                    if not isinstance(x, (ast.FunctionDef, ast.ClassDef)):
+                        stack.append(x)
+        for h in getattr(n, "handlers", []) or []:
+            stack.append(h)
+    return out
+
+
+def split_tuple_assigns(fn):
+    """N0: `a, b = x, y` -> `a = x; b = y` when no right-hand side reads (or can be affected by storing) an earlier target."""
+    k = 0
+    for b in _blocks(fn):
+        i = 0
+        while i < len(b):
+            s = b[i]
+            if isinstance(s, ast.Assign) and len(s.targets) == 1 and isinstance(s.targets[0], ast.Tuple) and \
+                    isinstance(s.value, (ast.Tuple, ast.List)) and len(s.targets[0].elts) == len(s.value.elts) and \
+                    not any(isinstance(x, ast.Starred) for x in s.targets[0].elts + s.value.elts):
+                tg, vs = s.targets[0].elts, s.value.elts
+                ok = True
+                for j in range(1, len(vs)):
+                    r = reads(vs[j])
+                    for t in tg[:j]:
+                        if isinstance(t, ast.Name):
+                            if t.id in r:
+                                ok = False
+                        else:
+                            if "<state>" in r or src(t) in r or any(src(t).startswith(x + "[") or src(t).startswith(x + ".") for x in r):
+                                ok = False
+                if ok:
+                    new = []
+                    for t, v in zip(tg, vs):
+                        a = ast.Assign(targets=[t], value=v)
+                        ast.copy_location(a, s)
+                        ast.fix_missing_locations(a)
+                        new.append(a)
+                    b[i:i + 1] = new
+                    i += len(new)
+                    k += 1
+                    continue
+            i += 1
+    return k
+
+
+def while_true_breaks(fn):
+    """N4: `while True: if c: break; REST` -> `while not c: REST` (repeated for several leading breaks)."""
+    k = 0
+    for w in [n for n in ast.walk(fn) if isinstance(n, ast.While)]:
+        while isinstance(w.test, ast.Constant) and w.test.value is True or (w.body and _leading_break(w.body[0]) and not w.orelse and k < 0):
+            if not (w.body and _leading_break(w.body[0])) or w.orelse or len(w.body) < 2:
+                break
+            c = w.body[0].test
+            w.test = negate(c)
+            w.body = w.body[1:]
+            k += 1
+            # further leading breaks are conjoined
+            while len(w.body) >= 2 and _leading_break(w.body[0]):
+                w.test = ast.BoolOp(op=ast.And(), values=[w.test, negate(w.body[0].test)])
+                w.body = w.body[1:]
+            ast.fix_missing_locations(w)
+            break
+    return k
+
+
+def _leading_break(s):
+    return isinstance(s, ast.If) and not s.orelse and len(s.body) == 1 and isinstance(s.body[0], ast.Break)
+
+
+def counter_whiles(fn):
+    """N5: `i = a` ... `while i < b: BODY; i += 1` -> `for i in range(a, b): BODY`."""
+    k = 0
+    for b in _blocks(fn):
+        for idx, w in enumerate(b):
+            if not (isinstance(w, ast.While) and not w.orelse and isinstance(w.test, ast.Compare) and len(w.test.ops) == 1 and
+                    isinstance(w.test.left, ast.Name) and isinstance(w.test.ops[0], (ast.Lt, ast.LtE)) and len(w.body) >= 2):
+                continue
+            i = w.test.left.id
+            last = w.body[-1]
+            if not (isinstance(last, ast.AugAssign) and isinstance(last.op, ast.Add) and isinstance(last.target, ast.Name) and last.target.id == i and
+                    isinstance(last.value, ast.Constant) and last.value.value == 1):
+                continue
+            body = w.body[:-1]
+            if any(isinstance(x, ast.Name) and x.id == i and isinstance(x.ctx, (ast.Store, ast.Del)) for t in body for x in ast.walk(t)):
+                continue
+            if any(isinstance(x, ast.Continue) for t in body for x in ast.walk(t)):
+                continue
+            # initialisation: the closest preceding statement of this block that writes i must be `i = a` with nothing in
+            # between that reads i
+            init = None
+            for j in range(idx - 1, -1, -1):
+                t = b[j]
+                if isinstance(t, ast.Assign) and len(t.targets) == 1 and isinstance(t.targets[0], ast.Name) and t.targets[0].id == i:
+                    init = j
+                    break
+                if any(isinstance(x, ast.Name) and x.id == i for x in ast.walk(t)):
+                    break
+            if init is None:
+                continue
+            bound = w.test.comparators[0]
+            a = b[init].value
+            deps = reads(bound)
+            if i in deps or i in reads(a):
+                continue
+            if any(writes_of(t) & deps for t in body) or any(writes_of(t) & reads(a) for t in b[init + 1:idx]):
+                continue
+            # i must not be read after the loop (a for loop leaves the last value, the while loop leaves the bound)
+            after = False
+            loop_ids = {id(x) for x in ast.walk(w)}
+            for x in ast.walk(fn):
+                if isinstance(x, ast.Name) and x.id == i and isinstance(x.ctx, ast.Load) and id(x) not in loop_ids and \
+                        (getattr(x, "lineno", 0), getattr(x, "col_offset", 0)) > (w.lineno, w.col_offset):
+                    after = True
+            if after:
+                continue
+            hi = bound if isinstance(w.test.ops[0], ast.Lt) else ast.BinOp(left=bound, op=ast.Add(), right=ast.Constant(value=1))
+            args = [hi] if isinstance(a, ast.Constant) and a.value == 0 else [a, hi]
+            f = ast.For(target=ast.Name(id=i, ctx=ast.Store()), iter=ast.Call(func=ast.Name(id="range", ctx=ast.Load()), args=args, keywords=[]),
+                        body=body, orelse=[])
+            ast.copy_location(f, w)
+            ast.fix_missing_locations(f)
+            b[idx] = f
+            del b[init]
+            k += 1
+            return k + counter_whiles(fn)
+    return k
+
+
+def rename_result_temps(fn):
+    """`__tmp = E` ... `x = __tmp` (single definition, single use, x untouched in between, same block) -> `x = E` at the definition."""
+    k = 0
+    for b in _blocks(fn):
+        i = 0
+        while i < len(b):
+            s = b[i]
+            if isinstance(s, ast.Assign) and len(s.targets) == 1 and isinstance(s.targets[0], ast.Name) and isinstance(s.value, ast.Name) and \
+                    s.value.id.startswith("__") and not s.targets[0].id.startswith("__"):
+                tmp, x = s.value.id, s.targets[0].id
+                defs = [n for n in ast.walk(fn) if isinstance(n, ast.Name) and n.id == tmp and isinstance(n.ctx, ast.Store)]
+                uses = [n for n in ast.walk(fn) if isinstance(n, ast.Name) and n.id == tmp and isinstance(n.ctx, ast.Load)]
+                d = [j for j in range(i) if isinstance(b[j], ast.Assign) and len(b[j].targets) == 1 and isinstance(b[j].targets[0], ast.Name)
+                     and b[j].targets[0].id == tmp]
+                if len(defs) == 1 and len(uses) == 1 and len(d) == 1 and \
+                        not any(isinstance(n, ast.Name) and n.id == x for t in b[d[0]:i] for n in ast.walk(t)):
+                    b[d[0]].targets[0].id = x
+                    del b[i]
+                    k += 1
+                    continue
+            i += 1
+    return k
+
+
+REBOUND_SITES = [None]     # attr -> set of "Class.method" that rebind self.<attr>
+
+
+def collect_rebound_sites(trees):
+    out = {}
+    for tree in trees:
+        for c in ast.walk(tree):
+            if not isinstance(c, ast.ClassDef):
+                continue
+            for f in c.body:
+                if not isinstance(f, ast.FunctionDef):
+                    continue
+                for n in ast.walk(f):
+                    if isinstance(n, ast.Attribute) and isinstance(n.ctx, (ast.Store, ast.Del)) and isinstance(n.value, ast.Name) and n.value.id == "self":
+                        out.setdefault(n.attr, set()).add("%s.%s" % (c.name, f.name))
+    return out
+
+
+def _later_statements(fn, stmt):
+    """Statements that can execute after `stmt` within one call of fn: the rest of every enclosing block, and the whole body
+    of every enclosing loop."""
+    par = {}
+    for a in ast.walk(fn):
+        for b in ast.iter_child_nodes(a):
+            par[id(b)] = a
+    out = []
+    cur = stmt
+    while cur is not fn and id(cur) in par:
+        p = par[id(cur)]
+        for field in ("body", "orelse", "finalbody"):
+            blk = getattr(p, field, None)
+            if isinstance(blk, list) and cur in blk:
+                out.extend(blk[blk.index(cur) + 1:])
+        if isinstance(p, (ast.For, ast.While)):
+            out.extend(p.body)
+            out.extend(p.orelse)
+            if isinstance(p, ast.While):
+                out.append(ast.Expr(value=p.test))
+        cur = p
+    return out
+
+
+def _occurs(name, stmts):
+    return any(isinstance(n, ast.Name) and n.id == name for t in stmts for n in ast.walk(t))
+
+
+def coalesce_copies(fn):
+    """`__t = x` where x is a local that is dead afterwards: the inliner's parameter copy is the same variable - rename __t to x."""
+    k = 0
+    again = True
+    while again:
+        again = False
+        for b in _blocks(fn):
+            for i, s in enumerate(b):
+                if isinstance(s, ast.Assign) and len(s.targets) == 1 and isinstance(s.targets[0], ast.Name) and isinstance(s.value, ast.Name) and \
+                        s.targets[0].id.startswith("__") and not s.value.id.startswith("__") and s.value.id != "self":
+                    t, x = s.targets[0].id, s.value.id
+                    later = [u for u in _later_statements(fn, s) if u is not s]
+                    if _occurs(x, later):
+                        continue
+                    # t must not be live before the copy (its first definition is this copy)
+                    first = None
+                    for n in ast.walk(fn):
+                        pass
+                    defs_before = [n for blk in _blocks(fn) for u in blk for n in ast.walk(u) if isinstance(n, ast.Name) and n.id == t]
+                    earlier = [u for blk in _blocks(fn) for u in blk]
+                    # conservative: every occurrence of t lies in `s` or in the later statements
+                    occ_all = sum(1 for n in ast.walk(fn) if isinstance(n, ast.Name) and n.id == t)
+                    occ_later = sum(1 for u in later for n in ast.walk(u) if isinstance(n, ast.Name) and n.id == t)
+                    # (later may list nested statements twice: compare as sets of node ids)
+                    ids_all = {id(n) for n in ast.walk(fn) if isinstance(n, ast.Name) and n.id == t}
+                    ids_later = {id(n) for u in later for n in ast.walk(u) if isinstance(n, ast.Name) and n.id == t} | {id(s.targets[0])}
+                    if ids_all != ids_later:
+                        continue
+                    for n in ast.walk(fn):
+                        if isinstance(n, ast.Name) and n.id == t:
+                            n.id = x
+                    del b[i]
+                    k += 1
+                    again = True
+                    break
+            if again:
+                break
+    return k
+
+
+def fold_none_tests(fn, cname):
+    """`if self.a is not None:` where self.a was bound to a list/dict/tuple display earlier in this function on every path
+    (an earlier statement of an enclosing block) and no other method except constructors rebinds it: the test is constant."""
+    sites = REBOUND_SITES[0]
+    if sites is None or cname is None:
+        return 0
+    k = 0
+    me = "%s.%s" % (cname, fn.name)
+    par = {}
+    for a in ast.walk(fn):
+        for b in ast.iter_child_nodes(a):
+            par[id(b)] = a
+
+    def non_none_before(stmt, attr):
+        """an assignment self.attr = <display> among the earlier siblings of stmt or of its ancestors, with no other
+        assignment of self.attr anywhere in fn that is not such a display"""
+        for n in ast.walk(fn):
+            if isinstance(n, ast.Attribute) and isinstance(n.ctx, (ast.Store, ast.Del)) and isinstance(n.value, ast.Name) and n.value.id == "self" \
+                    and n.attr == attr:
+                a = par.get(id(n))
+                if not (isinstance(a, ast.Assign) and len(a.targets) == 1 and isinstance(a.value, (ast.List, ast.Dict, ast.Tuple, ast.ListComp))):
+                    return False
+        cur = stmt
+        while cur is not fn and id(cur) in par:
+            p = par[id(cur)]
+            for field in ("body", "orelse"):
+                blk = getattr(p, field, None)
+                if isinstance(blk, list) and cur in blk:
+                    for u in blk[:blk.index(cur)]:
+                        if isinstance(u, ast.Assign) and len(u.targets) == 1 and isinstance(u.targets[0], ast.Attribute) and \
+                                isinstance(u.targets[0].value, ast.Name) and u.targets[0].value.id == "self" and u.targets[0].attr == attr:
+                            return True
+            cur = p
+        return False
+    for b in _blocks(fn):
+        i = 0
+        while i < len(b):
+            s = b[i]
+            if isinstance(s, ast.If) and isinstance(s.test, ast.Compare) and len(s.test.ops) == 1 and isinstance(s.test.ops[0], (ast.Is, ast.IsNot)) and \
+                    isinstance(s.test.comparators[0], ast.Constant) and s.test.comparators[0].value is None:
+                subj = s.test.left
+                val = None
+                if isinstance(subj, ast.Constant) and subj.value is None:
+                    val = isinstance(s.test.ops[0], ast.Is)
+                elif isinstance(subj, ast.Attribute) and isinstance(subj.value, ast.Name) and subj.value.id == "self":
+                    where = sites.get(subj.attr, set())
+                    if where <= {me, "%s.__init__" % cname} and non_none_before(s, subj.attr):
+                        val = isinstance(s.test.ops[0], ast.IsNot)
+                if val is not None:
+                    repl = s.body if val else s.orelse
+                    b[i:i + 1] = repl
+                    k += 1
+                    continue
+            i += 1
+    return k
 
 
 class _DropBool(ast.NodeTransformer):
@@ -540,6 +1027,15 @@ def normalize_tree(file, tree, vocab):
         elif isinstance(node, ast.FunctionDef):
             fns.append((None, node, set(v["functions"].get(node.name, [])) if node.name in v["functions"] else None))
         for cname, f, known in fns:
+            t0 = split_tuple_assigns(f)
+            t0 += fold_none_tests(f, cname)
+            t0 += coalesce_copies(f)
+            t0 += rename_result_temps(f)
+            if t0:
+                log.append("%s.%s: %d parallel assignment(s) split / result temporaries renamed" % (cname, f.name, t0))
+            w4 = while_true_breaks(f) + counter_whiles(f)
+            if w4:
+                log.append("%s.%s: %d loop(s) brought to while-cond / for-range form" % (cname, f.name, w4))
             g = guard_clauses(f)
             if g:
                 log.append("%s.%s: %d guard clause(s) -> if/else" % (cname, f.name, g))
